@@ -436,3 +436,5 @@ def run(ctx):
     import rules.common as _common
     ctx.rule('C06.R11', 'arguments keep their roles across calls: at every call of a repository function in the field/data type sources (the same offsets, lengths and formats must reach decode and encode) whose arguments are named like parameters of the callee, no two of them are passed crosswise (argument i named like parameter j and argument j like parameter i)', minimum=15)
     _common.swapped_args_rule(ctx, 'C06.R11', ('src/lib/ebus/data',), 15)
+    import rules.C12 as _c12
+    _c12.errno_rule(ctx, 'C06.R12')
